@@ -438,6 +438,39 @@ func monC01(c *child.Ctx, replay json.RawMessage) {
 			c.Sample(map[string]interface{}{"kind": "stream", "segments": segSummary(s)})
 		}
 	}
+	// every leader that is not a valid one (a reserved bit set, or a zero length field),
+	// followed by a body as long as each sloppy reading of it would expect and by the
+	// CRC of the whole: never a typed message
+	if c.Batch == 0 || c.Thorough() {
+		good := gen.RandFrame(r)
+		for b1 := 0; b1 < 256; b1++ {
+			for _, b2 := range []int{0, 1, 2, 0x13, 0x80, 0xff} {
+				if b1>>2 == 0 && (b1&3 != 0 || b2 != 0) {
+					continue // a valid leader
+				}
+				l10 := (b1&3)<<8 | b2
+				l16 := b1<<8 | b2
+				lens := []int{l10}
+				if l16 <= 2100 && l16 != l10 {
+					lens = append(lens, l16)
+				}
+				if l10 == 0 {
+					lens = append(lens, 1024)
+				}
+				for _, bl := range lens {
+					nf := gen.NonFrameWithLeader(r, byte(b1), byte(b2), bl)
+					in := append(append([]byte(nil), nf.Bytes...), good.Bytes...)
+					k := streamCase{Input: hexs(in), Note: fmt.Sprintf("leader d3 %02x %02x with a body of %d bytes and the CRC of the whole, then a valid frame", b1, b2, bl)}
+					cj := c.BeginV(k)
+					execC01Stream(c, k, cj)
+					kd := streamCase{Input: hexs(nf.Bytes), Direct: true, Note: k.Note}
+					cjd, _ := json.Marshal(kd)
+					execC01Direct(c, kd, cjd)
+					c.Count("invalid_leaders_swept", 1)
+				}
+			}
+		}
+	}
 	// every payload length once (thorough) with each single CRC byte corrupted
 	if c.Thorough() {
 		for n := 1 + c.Batch; n <= 1023; n += c.NBatch {
